@@ -220,7 +220,9 @@ func newHubWorld(cfg HubCfg, shape Shape, seed int64) (*hubWorld, error) {
 	case "down":
 		ocspURLs = []string{origin.ClosedPortURL() + pathOCSP}
 	}
-	h.leaves["c1"] = h.cas["A"].Leaf(pki.LeafOpts{CN: "c1", Serial: shape.Serial(1), CDP: []string{h.org.URL + pathD}, OCSP: ocspURLs})
+	h.leaves["c1"] = h.cas["A"].Leaf(pki.LeafOpts{CN: "c1", Serial: shape.Serial(1), CDP: []string{h.org.URL + pathD}, OCSP: ocspURLs, NoKeyUsage: seed%2 == 1})
+	// "E": the end-entity signing CRLs with its own key (issuer name = its subject, AKI = its key identifier)
+	h.cas["E"] = &pki.CA{Name: "c1", Key: h.leaves["c1"].Key, Cert: h.leaves["c1"].Cert, Alg: "ecdsa"}
 	h.leaves["c2"] = h.cas["A"].Leaf(pki.LeafOpts{CN: "c2", Serial: shape.Serial(2)})
 	h.leaves["c3"] = h.cas["B"].Leaf(pki.LeafOpts{CN: "c3", Serial: shape.Serial(1), CDP: []string{"ldap://directory.example/cn=crl,o=verif?certificateRevocationList"}})
 	h.chains["c1"] = pki.Chain(h.leaves["c1"].Cert, h.cas["A"])
@@ -287,6 +289,11 @@ func newHubWorld(cfg HubCfg, shape Shape, seed int64) (*hubWorld, error) {
 
 func (h *hubWorld) destroy() {
 	if h.hooks != nil {
+		// a parked background update is let go against a fast-failing origin (an unreachable one would cost the retry loop)
+		if h.hooks.ForcedParked() > 0 {
+			h.org.SetBody(pathD, []byte("gone"))
+			h.org.SetBody(pathU, []byte("gone"))
+		}
 		h.hooks.ReleaseForced(10 * time.Second)
 	}
 	if h.w != nil && !h.poisoned {
@@ -329,7 +336,11 @@ func (h *hubWorld) publish(l string, d hubDoc) {
 				avoid = append(avoid, h.shape.Serial(abs))
 			}
 		}
-		body = BuildCRL(CRLSpec{Signer: h.cas[d.Signer], Listed: listed, Avoid: avoid, CritExt: d.Q == "critext", Number: h.number}, h.shape)
+		sh := h.shape
+		if d.Signer == "E" {
+			sh.Num = "absent" // crypto/x509 refuses to sign a CRL with a non-CA certificate: rendered by derbuild
+		}
+		body = BuildCRL(CRLSpec{Signer: h.cas[d.Signer], Listed: listed, Avoid: avoid, CritExt: d.Q == "critext", Number: h.number}, sh)
 	}
 	if l == "U" && h.cfg.Conf == "file" {
 		if d.Q == "down" {
@@ -542,6 +553,10 @@ func runHubWalk(c *vk.Ctx, cfg HubCfg, walk []*graph.Edge, shape Shape, seed int
 		// conformance: model and code must agree on the observables, otherwise the rest of the walk is meaningless
 		if drift := hubDrift(cfg, name, obs); drift != "" {
 			c.Drift(drift)
+			if os.Getenv("VERIF_DEBUG") != "" {
+				b, _ := json.Marshal(map[string]any{"cfg": cfg, "shape": shape, "chain": h.chainVariant, "steps": hist})
+				fmt.Fprintf(os.Stderr, "HUBDRIFT %s %s\n", drift, b)
+			}
 			return done
 		}
 		if c.Violations() > 6 {
